@@ -664,7 +664,8 @@ func spec() vkit.Spec[Case] {
 			"missing/duplicate/extra keys, non-string type, 50-30000 levels of arrays, huge/tiny numbers, garbage bytes) and mutated valid encodings; Geometry values with " +
 			"[]interface{}, []float64, fully typed [][]float64... slices, int, NaN/Inf and nil-pointer shapes; decoded geometries are also re-encoded with ToGeoJSON and decoded with FromGeoJSON. Oracle per call: no panic; exactly one of geometry/error; geometry well-formed; heap bytes allocated during " +
 			"the call <= K*len(input)+1MiB (K=64 WKB/hex, 512 GeoJSON) plus, for WKB/hex, 24 KiB per 9 input bytes (one pre-sized slice of <= 1024 elements per header; so chains of up to 7000 nested collections that each announce a hostile count, or a count the remaining bytes could just hold, stay linear); on success decode(encode(g)) == g. Non-trivial = WKB/hex input derived from a valid encoding by >=1 " +
-			"mutation and not rejected at the first byte, or JSON text that parses. Distinct by case hash. notes.max_honest_alloc_ratio = largest allocated/input ratio among successful decodes of inputs >= 512 bytes.",
+			"mutation and not rejected at the first byte, or JSON text that parses. Distinct by case hash. notes.max_honest_alloc_ratio = largest allocated/input ratio among successful decodes of inputs >= 512 bytes." +
+			" Round 10: polygons with two or three long rings (1023, 1024, 1025 or 2048 points each).",
 		Assumptions:  []string{"allocation is measured with runtime.MemStats.TotalAlloc around a single-goroutine call (heap bytes, not peak RSS)", "constants K chosen 10x above honest decoding"},
 		Gen:          gen,
 		Run:          run,
